@@ -108,6 +108,8 @@ def plan(tier, seed):
                 kw = dict(label="%s/d%d" % (lab, dd), cfg=cfg, alphabet="alphabet", depth=dd,
                           oracles={"result", "resource", "nowrite", "ctxerr"}, hooks="probe",
                           extra={"rich": not childhandle, "max_nest": 3})
+                if tier != "quick":
+                    kw["max_transitions"] = 50000
                 tasks += seqcheck.split((8 if tier == "quick" else 16) if not childhandle else 4, **kw)
             if fam in ("Buffered", "MemoryBuffered") or tier != "quick":
                 d2 = 4 if tier == "quick" else 6
@@ -115,6 +117,8 @@ def plan(tier, seed):
                 kw = dict(label="%s/2files/d%d" % (c, d2), cfg=cfg, alphabet="alphabet", depth=d2,
                           oracles={"result", "resource", "nowrite", "ctxerr"}, hooks="probe",
                           extra={"rich": False, "max_nest": 2 if tier == "quick" else 3})
+                if tier != "quick":
+                    kw["max_transitions"] = 50000
                 tasks += seqcheck.split(4 if tier == "quick" else 12, **kw)
     return tasks
 
